@@ -19,6 +19,7 @@ RULE = ("valid words with random letter case and whitespace injected at random p
         "whitespace; empty and blank strings; non-strings; distinct = distinct input string; non-trivial = all")
 RULE += ("; added after the mutation rounds: FASTA-like and decorated strings; words spelling three-letter codes / file names, constructed in a directory holding files of those names; further non-strings (inf, numpy / Decimal NaN, objects with __str__, backend objects); the first cases of every shard are judged again at its end")
 RULE += ("; round 5: every non-ASCII code point that a case mapping sends onto residue letters (all positions) and a quarter (thorough: all) of the ~1100 that compatibility normalisation does; look-alike words and alphabets")
+RULE += ("; round 6: valid words wrapped in a pair of foreign characters (quotes, brackets, ...)")
 EXHAUSTIVE = {"quick": False, "thorough": False}
 EXHAUSTIVE_NOTE = {"quick": "ASCII 0..127 x 3 positions x 2 base words; every isspace character",
                    "thorough": "ASCII 0..127 x 3 positions x 6 base words; every isspace character"}
